@@ -37,7 +37,7 @@ def shards(tier):
     out.append(("dapc",))
     for ec in S.EVENT_CLASSES:
         for sch in S.EVENT_SCHEMES:
-            out.append(("event", ec[1], sch, tier))
+            out.append(("event", ec[1], sch, tier, ec[0], ec[2]))
     out.append(("illegal",))
     return out
 
@@ -88,9 +88,9 @@ def roundtrip(res, desc, from_frame, int_dest=False):
 
 def event_roundtrip(res, mod, name, itype, sch, fields, data, form, from_frame):
     from dali.device.helpers import DeviceInstanceTypeMapper
-    case = {"t": "event", "name": name, "scheme": sch, "fields": fields, "data": data, "form": form}
+    case = {"t": "event", "name": name, "scheme": sch, "fields": fields, "data": data, "form": form, "itype": itype, "mod": mod}
     try:
-        c = S.construct_event(mod, name, fields, data, form)
+        c = S.construct_event(mod, name, fields, data, form, itype)
     except Exception as e:
         add_violation(res, f"C02:event-construct:{name}", f"{case}: {e!r}", case)
         return
@@ -247,8 +247,10 @@ def run_shard(shard):
         res["distinct"].add(("gear.general", "DAPC"))
         sample(res, {"dapc": "82 destinations x 256 levels + OFF/MASK + int destinations"})
     elif k == "event":
-        _, name, sch, tier = shard
-        mod, _, itype, code = next(e for e in S.EVENT_CLASSES if e[1] == name)
+        _, name, sch, tier = shard[:4]
+        mod, itype, code = shard[4], shard[5], None
+        if name != "UnknownEvent":
+            mod, _, itype, code = next(e for e in S.EVENT_CLASSES if e[1] == name)
         for fields in S.event_field_space(sch, tier):
             for data in S.event_data_space(name, tier):
                 event_roundtrip(res, mod, name, itype, sch, fields, data, "int", from_frame)
@@ -283,8 +285,7 @@ def replay(case):
         args = tuple(tuple(a) if isinstance(a, list) else a for a in args)
         roundtrip(res, (mod, name, args), from_frame, case.get("int_dest", False))
     elif t == "event":
-        mod, _, itype, code = next(e for e in S.EVENT_CLASSES if e[1] == case["name"])
-        event_roundtrip(res, mod, case["name"], itype, case["scheme"], case["fields"], case["data"], case["form"], from_frame)
+        event_roundtrip(res, case["mod"], case["name"], case["itype"], case["scheme"], case["fields"], case["data"], case["form"], from_frame)
     elif t == "dapc":
         return run_shard(("dapc",))["violations"]
     else:
